@@ -1,7 +1,10 @@
 (* C03: line-protocol driver around the extracted trace acceptors (module Total).
    input : "U|S max_pack max_it mpwp_max goal in_prec ferr finc avoid ; tok tok ..."
            goal 0 isolate / 1 approximate / 2 count; tokens: Pf Pd Pm W:<n> K I:<n> NC IT R
-   output: "OK <skeleton steps> <bound>"  |  "REJECT <U|S> left=<events not consumed> steps=<n> bound=<b>" *)
+           "X max_pack max_it mpwp_max goal in_prec ferr lastphase avoid kind startphase crude jacobi canimprove ; tok ..."
+           (extended secular skeleton, Total.check_x; lastphase/startphase 0 none 1 float 2 dpe 3 mp; kind m|o|s;
+            tokens: the EVX tags of harness/c03_solve.c, improve:<n>)
+   output: "OK <skeleton steps> <bound>"  |  "REJECT <U|S|X> left=<events not consumed> steps=<n> bound=<b>" *)
 open Total
 
 let rec nat_of_int n = if n <= 0 then O else S (nat_of_int (n - 1))
@@ -15,6 +18,17 @@ let ev_of_tok t =
   | ["I"; n] -> EI (nat_of_int (int_of_string n))
   | ["NC"] -> ENC | ["IT"] -> EIter | ["R"] -> ERaise
   | _ -> failwith ("bad token " ^ t)
+
+let xev_of_tok t =
+  match String.split_on_char ':' t with
+  | ["seceq"] -> VSecEq | ["cd-f"] -> VCd false | ["cd-d"] -> VCd true | ["pre"] -> VPre | ["pre-fpe"] -> VPreFpe
+  | ["back"] -> VBack | ["swd"] -> VSwD | ["regfail"] -> VRegFail | ["starts"] -> VStarts | ["cleanerr"] -> VCleanErr
+  | ["it-f"] -> VIt FloatP | ["it-d"] -> VIt DpeP | ["it-m"] -> VIt MpP | ["it-fpe"] -> VItFpe | ["stop"] -> VStop
+  | ["avoid"] -> VAvoid | ["switch"] -> VSwitch | ["raise"] -> VRaise | ["regraise"] -> VRegRaise | ["reg1fail"] -> VReg1Fail
+  | ["cleanup"] -> VCleanup | ["improve"; n] -> VImp (nat_of_int (int_of_string n))
+  | _ -> failwith ("bad token " ^ t)
+
+let phase_of_string = function "1" -> FloatP | "2" -> DpeP | "3" -> MpP | _ -> NoPhase
 
 let () =
   try
@@ -45,6 +59,18 @@ let () =
              if ok then Printf.printf "OK %d 0\n" (int_of_nat n)
              else Printf.printf "REJECT S left=%d steps=%d bound=0\n" (int_of_nat left) (int_of_nat n)
            end
+         | ["X"; mp; mi; mw; goal; prec; ferr; lp; avoid; kind; sp; crude; jac; canimp] ->
+           let evs = List.map xev_of_tok t in
+           let first f = List.fold_left (fun acc e -> match acc, f e with None, Some v -> Some v | _ -> acc) None evs in
+           let i0 = match first (function VImp n -> Some (int_of_nat n) | _ -> None) with Some w -> max 1 w | None -> 53 in
+           let c = { max_pack = nat_of_int (int_of_string mp); max_it = nat_of_int (int_of_string mi); mpwp_max = nat_of_int (int_of_string mw) } in
+           let g = { xgoal = (match goal with "1" -> Approximate | "2" -> Count | _ -> Isolate);
+                     xin_prec = nat_of_int (int_of_string prec); xwp_min = nat_of_int i0; xavoid_mp = (avoid = "1");
+                     kind = (match kind with "s" -> KSecular | "o" -> KOther | _ -> KMonomial); start_phase = phase_of_string sp;
+                     crude = (crude = "1"); jacobi = (jac = "1"); can_improve = (canimp = "1") } in
+           let ((ok, n), left) = check_x c g (ferr = "1") (phase_of_string lp) evs in
+           if ok then Printf.printf "OK %d 0\n" (int_of_nat n)
+           else Printf.printf "REJECT X left=%d steps=%d bound=0\n" (int_of_nat left) (int_of_nat n)
          | _ -> print_endline "REJECT ? bad-header")
       with e -> Printf.printf "REJECT ? exception:%s\n" (Printexc.to_string e));
       flush stdout
